@@ -32,6 +32,14 @@ TRUSTED_DEP_PREFIX = ("quick_xml::", "convert_string::", "log::", "clap::", "cla
 INFINITE_ITER_RE = re.compile(r"std::iter::(Repeat|RepeatWith|Cycle|Successors|FromFn)\b|std::ops::RangeFrom\b|std::iter::sources::")
 
 
+BOUNDING_RE = re.compile(r"std::iter::(Take|TakeWhile|MapWhile|Zip|Scan|Fuse|Peekable|StepBy)<")
+
+
+def _is_unbounded_ty(s):
+    """iterator type that can never report exhaustion: an unbounded source and no adapter that may end it"""
+    return bool(INFINITE_ITER_RE.search(s)) and not BOUNDING_RE.search(s)
+
+
 def _mutations_between(body, root_local, a_site, b_site):
     """sites on a path from a_site to b_site that may mutate the value rooted at `root_local`"""
     fwd = body.reach_from(a_site.bb)
@@ -386,6 +394,12 @@ def scan_panics(run, crate, prefix="A2", only=None, exempt=()):
                            site=s, key="%s.indirect|%s" % (prefix, body.name))
                     continue
                 ok, why = discharge_call(run, body, s)
+                if not ok and name in ("std::option::Option::expect", "std::option::Option::unwrap") and n["args"]:
+                    src = strip(term_of(body, n["args"][0]))
+                    if src[0] == "call" and src[1] in ("std::iter::Iterator::find", "std::iter::Iterator::position", "std::iter::Iterator::find_map") and \
+                            _is_unbounded_ty(arg_ty(body, src[3].node["args"][0]).get("s", "")):
+                        ok, why = True, "D7: the searched iterator is unbounded (%s): the search returns Some or does not return (its termination is a loop obligation)" % \
+                            arg_ty(body, src[3].node["args"][0]).get("s", "")[:60]
                 if not ok:
                     # retry with private helpers looked through (an index computed by an extracted helper)
                     from .common import look_through_private
@@ -481,6 +495,22 @@ def loop_witnesses(body, header, blocks):
                 out.append(("next", s, False, "receiver not a place"))
                 continue
             if INFINITE_ITER_RE.search(sty):
+                # an unbounded integer range never ends by itself; it is a progress witness when its (pairwise distinct)
+                # items reach a loop-exit test through injective steps only - then the test sees a fresh value every time
+                if self_ty(t).get("adt") == "std::ops::RangeFrom" and _defined_in(body, root["l"], blocks) is False or \
+                        (self_ty(t).get("adt") == "std::ops::RangeFrom" and (1 <= root["l"] <= body.arg_count)):
+                    dep = False
+                    for (a, b) in [(a, b) for a in blocks for b in body.succs(a) if b not in blocks]:
+                        ta = body.blocks[a]["term"]
+                        if ta["k"] == "switch" and a != body.succs(bb)[0]:
+                            if any(x[0] == "call" and x[1] == s for x in body.origins(ta["op"], transparent=lambda tt: tt is not t)):
+                                dep = True
+                    lossy = _lossy_between(body, ("site", s), blocks, skip={body.succs(bb)[0]}) if dep else None   # not the range's own (never taken) exhaustion test
+                    if dep and not lossy:
+                        out.append(("range", s, True, "items of the unbounded range are pairwise distinct and feed the exit test injectively (fresh candidate on every iteration)"))
+                    else:
+                        out.append(("next", s, False, "iterator type %s is unbounded and %s" % (sty, "its items reach the exit test only through `%s`" % lossy if lossy else "its items do not feed an exit test")))
+                    continue
                 out.append(("next", s, False, "iterator type %s is unbounded" % sty))
                 continue
             if _defined_in(body, root["l"], blocks) and not (1 <= root["l"] <= body.arg_count):
@@ -574,7 +604,7 @@ INJECTIVE_CALLS = ("std::fmt::format", "std::fmt::Arguments::new", "core::fmt::r
                    "std::hint::must_use", "std::string::String::push_str", "std::ops::Add::add")
 
 
-def _lossy_between(body, counter, blocks):
+def _lossy_between(body, counter, blocks, skip=()):
     """name of a call through which the counter must pass on its way to a loop-exit test and which is not known to keep
     distinct counter values distinct (formatting an integer into a string does; truncating, trimming, case folding,
     taking a prefix do not); None if every exit test sees the counter through injective steps only"""
@@ -584,6 +614,8 @@ def _lossy_between(body, counter, blocks):
         """-> (reaches the counter, first non-injective call on such a path or None)"""
         if depth > 25:
             return False, None
+        if isinstance(counter, tuple) and t[0] == "call" and len(t) > 3 and t[3] == counter[1]:
+            return True, None
         if t[0] == "local":
             if t[1] == counter:
                 return True, None
@@ -626,7 +658,7 @@ def _lossy_between(body, counter, blocks):
     worst = None
     for a in blocks:
         ta = body.blocks[a]["term"]
-        if ta["k"] != "switch" or all(b in blocks for b in body.succs(a)):
+        if ta["k"] != "switch" or all(b in blocks for b in body.succs(a)) or a in skip:
             continue
         root = strip(term_of(body, ta["op"]))
         while root[0] == "unop" and root[1] == "Not":
@@ -666,9 +698,46 @@ def _returns_to(body, start, header, blocks):
     return header in body.reach_from(start, avoid=set(body.reachable()) - set(blocks)) or start == header
 
 
+SEARCHES = ("std::iter::Iterator::find", "std::iter::Iterator::position", "std::iter::Iterator::any", "std::iter::Iterator::all", "std::iter::Iterator::find_map")
+
+
+def _unbounded_searches(body):
+    """calls of find/position/any/all/find_map whose source contains an unbounded iterator (a..) / repeat / cycle ..."""
+    out = []
+    for cs in body.calls():
+        if cname(cs.node) in SEARCHES and cs.node["args"]:
+            ty = arg_ty(body, cs.node["args"][0]).get("s", "")
+            if INFINITE_ITER_RE.search(ty):
+                out.append(cs)
+    return out
+
+
 def scan_loops(run, crate, prefix="A2"):
     n = 0
     for body in crate.real_bodies():
+        searches = _unbounded_searches(body) if body.kind != "closure" else []
+        if searches:
+            # the loop is inside std: make it explicit (normal form) and demand the same witnesses as for a written loop
+            from .common import normal_form
+            nf = normal_form(crate, body)
+            for cs in searches:
+                n += 1
+                cand = []
+                for header, blocks in sorted(nf.loops().items()):
+                    nx = [c for c in nf.calls() if c.bb in blocks and cname(c.node) == "std::iter::Iterator::next" and c.node["callee"].get("synthetic") and
+                          INFINITE_ITER_RE.search(self_ty(c.node).get("s", "")) and (c.node.get("span") or {}).get("s") == (cs.node.get("span") or {}).get("s")]
+                    if nx:
+                        cand.append((header, blocks))
+                ok, why = False, "the search over an unbounded iterator could not be made explicit: nothing shows that it ends"
+                if cand:
+                    header, blocks = min(cand, key=lambda hb: len(hb[1]))
+                    ws = loop_witnesses(nf, header, blocks)
+                    valid = [w for w in ws if w[2]]
+                    ok = bool(valid)
+                    why = "the search ends: %s" % "; ".join("%s (%s)" % (w[0], w[3]) for w in valid[:2]) if ok else \
+                        "search over an unbounded iterator without a termination witness (%s)" % ("; ".join(w[3] for w in ws) or "no candidate")
+                run.ob("%s.loop-progress" % prefix, "%s: %s over an unbounded iterator" % (body.name, method(cs.node)), ok, why, site=cs,
+                       key="%s.loop|%s|unbounded-%s|%s" % (prefix, body.name, method(cs.node), "ok" if ok else "no-progress"))
         for header, blocks in sorted(body.loops().items()):
             n += 1
             ws = loop_witnesses(body, header, blocks)
